@@ -145,6 +145,19 @@ def run(repo: Repo, rep: Report, tier: str) -> None:
             strict += [c for c in conj if isinstance(c, ast.Compare) and isinstance(c.ops[0], ast.In) and "_edge_wire_colors" in norm(c.comparators[0])]
         rep.check(not strict, "C02-R17", "_inject_condition_wire_colors: a row is coloured whenever its source is wired to the decider", "no exact-name requirement" if not strict else
                   f"requires `{norm(strict[0])[:100]}`: a signal-anything / signal-everything row has no edge of that name and stays unselected, so it sees both bundles", icw.loc(st17))
+    rep.rule("C02-R18", "a projection never renames the output of a bundle operation: `(b * 2)[\"coal\"] | \"signal-1\"` selects a member and projects it; the each-combinator "
+             "behind `b * 2` outputs every member under its own name, and folding the projection into it (output signal-1) sums all members onto that one signal — "
+             "_try_fold_projection_into_source declines when the producer outputs a wildcard")
+    pf18 = repo.func("ExpressionLowerer._try_fold_projection_into_source")
+    g18 = CFG(pf18.node)
+    ret18 = [n for n in walk_local(pf18.node) if isinstance(n, ast.Assign) and isinstance(n.targets[0], ast.Attribute) and n.targets[0].attr == "output_type"]
+    dec18 = [n for n in walk_local(pf18.node) if isinstance(n, ast.If) and ".output_type" in norm(n.test) and "signal-each" in norm(n.test)
+             and any(isinstance(b, ast.Return) and (b.value is None or (isinstance(b.value, ast.Constant) and b.value.value is None)) for b in n.body)]
+    if not ret18:
+        raise AnalysisError("C02-R18: the retyping store of _try_fold_projection_into_source was not found")
+    ok18 = any(g18.dominates(d, ret18[0]) for d in dec18)
+    rep.check(ok18, "C02-R18", "_try_fold_projection_into_source declines for a producer that outputs a wildcard", "`return None` for signal-each / signal-everything producers dominates the retyping" if ok18 else
+              "a bundle arithmetic or filter can be renamed to a single output signal: all members are summed onto it (46 instead of 6 for b = {100, -80, 3} * 2)", pf18.loc(ret18[0]))
     rep.rule("C02-R14", "a wildcard compared with a signal does not count that signal: `any(b) CMP k` / `all(b) CMP k` is a decider whose first operand is signal-anything / "
              "signal-everything; the placement raises the separation flag for it, and the planner then brings the scalar in on green as it does for a bundle filter")
     pa = ep.methods["_place_arithmetic"]
